@@ -18,6 +18,8 @@ package main
 //	handlerCtors     every call of newH3sHandler: enclosing function
 //	respWrites       every use of the ResponseWriter parameter of ServeHTTP: the call it is part of, guards
 //	shapeCond        the condition of the first `if` of ServeHTTP
+//	h3ServerFields   the fields set in every http3.Server literal (expected: Handler and StreamDispatcher only - no
+//	                 MaxHeaderBytes or other limit that would make quic-go answer a request itself)
 //
 // The component is driven like any other (`verif-core authshape -ops <file with one line "shape <path>">`).
 
@@ -177,6 +179,19 @@ func (authShapeComp) Run(op string) vh.Result {
 						}
 						add("flagWrites", fmt.Sprintf("%s | %s %s %s | %s", fname, asText(fset, l), x.Tok, rhs, gate()))
 					}
+				}
+			case *ast.CompositeLit:
+				if x.Type != nil && asText(fset, x.Type) == "http3.Server" {
+					var keys []string
+					for _, el := range x.Elts {
+						if kv, ok := el.(*ast.KeyValueExpr); ok {
+							keys = append(keys, asText(fset, kv.Key))
+						} else {
+							keys = append(keys, "positional")
+						}
+					}
+					sort.Strings(keys)
+					add("h3ServerFields", fname+" | "+strings.Join(keys, ","))
 				}
 			case *ast.KeyValueExpr:
 				if id, ok := x.Key.(*ast.Ident); ok && id.Name == "authenticated" {
